@@ -19,7 +19,7 @@ CELLS = list(itertools.product((True, False), (True, False), (True, False), ('be
                                (True, False), ('before', 'after', 'inside')))
 CASES = {'quick': len(CELLS), 'thorough': len(CELLS) * 60}
 BUDGET = {'quick': 150, 'thorough': 300}
-REQUIRE = {'cells_run': 600, 'publications_checked': 1500, 'concurrent_subscribes': 150, 'cells_with_fabric_cleared_while_running': 60, 'outside_call_on_busy_object_with_live_spy': 80}
+REQUIRE = {'cells_run': 600, 'publications_checked': 1500, 'concurrent_subscribes': 150, 'cells_with_fabric_cleared_while_running': 60, 'outside_call_on_busy_object_with_live_spy': 50}
 ASSUME = ['decoration is all-or-none per chart; each phase is followed by quiescence so "later publications" is unambiguous']
 ANNOUNCE_CASES = True
 
